@@ -673,7 +673,9 @@ def main(tier, replay=None):
             else:
                 # listed fixed but the code computes the old map again: the oracle (classify -> violation) and the replay of the
                 # stored F3 input report it with a concrete input
-                run.notes.append("F3 is listed fixed but Undulator.transfer_map equals und_map (R56 = +L igamma2): the repaired defect is back")
+                msg = "F3 is listed fixed but Undulator.transfer_map equals und_map (R56 = +L igamma2): the repaired defect is back"
+                if msg not in run.notes:
+                    run.notes.append(msg)
             continue
         corr_new.append((idx, what, err))
     regressed = replay_known(run)
